@@ -56,7 +56,7 @@ def shapes(maxN, maxM, selfloops=True, connected=False, **kw):
     return out
 
 
-OPT_DEFAULT = {"P1": 0, "P2": 0, "P4": 4, "P5": 2, "BK": -1, "SZ": 2, "VIRT": 0, "INTSZ": 0}
+OPT_DEFAULT = {"P1": 0, "P2": 0, "P4": 4, "P5": 2, "BK": -1, "SZ": 2, "VIRT": 0, "INTSZ": 0, "NSFIX": -1, "LSFIX": -1}
 
 
 def layout_ob(name, func, shape_list, dims, consts=None, **kw):
@@ -128,3 +128,16 @@ def C01(tier):
 
 
 REG.update({"C01": C01, "C02": C02, "C03": C03, "C05": C05, "C06": C06})
+
+
+def C07(tier):
+    q = tier == "quick"
+    sh = shapes(4, 2) + [s for s in shapes(3, 3) if s not in shapes(4, 2)] if q else shapes(4, 4)
+    obs = [layout_ob("layout-deterministic", "Harness_E_C07", sh, {"P1": [0, 1], "P2": [0, 1], "P4": [4, 1]},
+                     consts={"P5": 2, "SZ": 2},
+                     bounds="canonical edge lists x {greedy,dfs} x {NS,LP} x {SinkColoring,VAlign}, polyline; two calls with independent symbolic map iteration orders",
+                     enctimeout=60)]
+    return dict(obligations=obs)
+
+
+REG["C07"] = C07
